@@ -1,9 +1,10 @@
 #!/bin/bash
-# run_neutral.sh [-P n]: run every behaviour-preserving refactoring under /verif/neutral against the quick checks of
+# run_neutral.sh [n] [glob]: run every behaviour-preserving refactoring under /verif/neutral against the quick checks of
 # the properties listed in its props.txt (scratch copies). Prints one line per alarm; exit 1 if a refactoring that is
 # not listed as a known false alarm in /verif/neutral/README.md raises one.
 P=${1:-3}
-for d in /verif/neutral/N*/; do id=$(basename $d); for p in $(cat $d/props.txt); do echo "$id $p"; done; done |
+PAT=${2:-[NMP]*}
+for d in /verif/neutral/$PAT/; do id=$(basename $d); for p in $(cat $d/props.txt); do echo "$id $p"; done; done |
   xargs -P "$P" -L 1 bash -c 'out=$(/verif/tools/seedtest.sh /verif/neutral/$0/patch.diff $1 2>&1); echo "$0 $1 $(echo "$out" | grep -a "^exit=") $(echo "$out" | grep -a -m1 "failed obligation" | cut -c1-160)"' > /tmp/run_neutral.out
 bad=0
 while read id p ex rest; do
